@@ -47,10 +47,11 @@ pub mod verif {
 }
 
 use include_logic::FileStack;
-use program_structure::ast::{Version, AST};
+use program_structure::ast::{Definition, Version, AST};
 use program_structure::report::{Report, ReportCollection};
 use program_structure::file_definition::{FileID, FileLibrary};
 use program_structure::program_archive::ProgramArchive;
+use program_structure::program_merger::Merger;
 use program_structure::template_library::TemplateLibrary;
 use std::collections::HashMap;
 use std::path::{Path, PathBuf};
@@ -61,6 +62,21 @@ pub enum ParseResult {
     Program(Box<ProgramArchive>, ReportCollection),
     /// The parser failed to parse a complete program.
     Library(Box<TemplateLibrary>, ReportCollection),
+}
+
+/// Reports every definition whose name is already used by an earlier definition. (A
+/// template library keeps the first definition of a name only.)
+fn duplicate_definitions(definitions: &HashMap<FileID, Vec<Definition>>) -> ReportCollection {
+    let mut merger = Merger::new();
+    let mut reports = ReportCollection::new();
+    let mut file_ids: Vec<_> = definitions.keys().copied().collect();
+    file_ids.sort_unstable();
+    for file_id in file_ids {
+        if let Err(mut errors) = merger.add_definitions(file_id, &definitions[&file_id]) {
+            reports.append(&mut errors);
+        }
+    }
+    reports
 }
 
 pub fn parse_files(
@@ -113,11 +129,13 @@ pub fn parse_files(
         }
         [] => {
             // TODO: Maybe use a flag to ensure that a main component must be present.
+            reports.append(&mut duplicate_definitions(&definitions));
             let template_library = TemplateLibrary::new(definitions, file_library);
             ParseResult::Library(Box::new(template_library), reports)
         }
         _ => {
             reports.push(errors::MultipleMainError::produce_report());
+            reports.append(&mut duplicate_definitions(&definitions));
             let template_library = TemplateLibrary::new(definitions, file_library);
             ParseResult::Library(Box::new(template_library), reports)
         }
